@@ -62,10 +62,16 @@ def _is_item(e, lists, items):
     return isinstance(e, ast.Subscript) and _is_list(e.value, lists)
 
 
+REGISTERING_HELPERS = set()      # methods whose straight-line top level registers self (filled by check())
+
+
 def _events(st, lists, items):
     """('M', text) mutation / ('R', text) registration events of a simple stmt."""
     out = []
     for n in ast.walk(st):
+        if isinstance(n, ast.Call) and isinstance(n.func, ast.Attribute) and isinstance(n.func.value, ast.Name) \
+                and n.func.value.id == "self" and n.func.attr in REGISTERING_HELPERS:
+            out.append(("R", pyfront.unparse(n)))
         if isinstance(n, ast.Call) and isinstance(n.func, ast.Attribute) and \
                 n.func.attr in MUTATORS and _is_list(n.func.value, lists):
             out.append(("M", pyfront.unparse(n)))
@@ -256,6 +262,15 @@ def _expand_cond(test, fn, members, depth=0):
 def check(res):
     tree = pyfront.module(REL)
     cls = pyfront.classes(tree)
+    REGISTERING_HELPERS.clear()
+    for c0 in cls.values():
+        for fn0 in c0.body:
+            if isinstance(fn0, ast.FunctionDef) and not fn0.name.startswith("__"):
+                # unconditional: a top-level simple statement of the method registers self
+                for st0 in fn0.body:
+                    if isinstance(st0, (ast.Assign, ast.AugAssign)) and any(
+                            k == "R" for k, _t in _events(st0, set(), set())):
+                        REGISTERING_HELPERS.add(fn0.name)
     n_methods = n_mut = 0
     accepted = []
     for cname in PERSISTENT_CLASSES:
